@@ -196,8 +196,15 @@ func (db *ContractDB) LoadContractFile(path, pkgPath string) error {
 			}
 			cur = &Contract{Key: key, Pkg: pkgPath, Extern: ext, LoopInv: map[int][]Clause{}, LoopDec: map[int]Clause{}, Opts: map[string]string{}, File: path, Line: rc.line}
 			if old, dup := db.Funcs[key]; dup {
-				if !(old.Extern && ext) {
+				if !old.Extern && !ext {
 					return fmt.Errorf("%s:%d: duplicate contract for %s (first at %s:%d)", path, rc.line, key, old.File, old.Line)
+				}
+				if old.Extern && !ext {
+					// a verified contract replaces an extern stub written elsewhere
+					db.Dups = append(db.Dups, fmt.Sprintf("%s: extern stub at %s:%d replaced by the contract at %s:%d", key, old.File, old.Line, path, rc.line))
+					db.Funcs[key] = cur
+					curLemma, curSpec = nil, nil
+					continue
 				}
 				// the same library function declared by two contract files: the first
 				// declaration (files are loaded in sorted order) is the one in force;
